@@ -282,6 +282,7 @@ class C05(Check):
                 else:
                     snaps += 1
         return dict(implementation_calls=calls, probe_calls=probes, snapshots_compared=snaps, result_classes=rcs,
+                    facts_source=getattr(self, "_facts_source", None),
                     facts_extracted=dict(self._facts(), **({"extractor_refused": self._facts_error,
                                                             "used_instead": "all true"} if getattr(self, "_facts_error", None) else {})))
 
@@ -298,8 +299,9 @@ class C05(Check):
         if getattr(self, "_facts_cache", None) is None:
             import extract_c05
             self._facts_error = None
+            self._facts_source = None
             try:
-                res = extract_c05.extract(REPO)
+                res, self._facts_source = extract_c05.facts(REPO)
                 self._facts_cache = {n: bool(res[n]) for _, n in self.FACT_FIELDS}
             except Exception as e:      # noqa: the extractor refused the source shape
                 # Never crash the check: the refusal is a broken obligation (recorded by the
@@ -307,6 +309,7 @@ class C05(Check):
                 # missing); the correspondence runs with the facts of the repaired code
                 # (all true) so that the oracle can still look for a failing input.
                 self._facts_error = "%s: %s" % (type(e).__name__, str(e)[-1200:])
+                self._facts_source = "none (both paths failed); correspondence evaluated with all facts = true"
                 self._facts_cache = {n: True for _, n in self.FACT_FIELDS}
         return self._facts_cache
 
